@@ -17,6 +17,12 @@ Definition all_listed (objs : list obj) : list file := nodup N.eq_dec (flat_map 
 Definition rules_of (fixed : bool) (objs : list obj) : list rule :=
   (if fixed then map leaf_rule (all_listed objs) else []) ++ map orule objs.
 
+(* ... and when the compile of SOME objects failed last time: the compiler wrote their depfiles before it stopped, the
+   recipe line running the depfixer was never reached, so those depfiles are as the compiler wrote them ([snd] = false) *)
+Definition rules_of_mixed (objs : list (obj * bool)) : list rule :=
+  map leaf_rule (nodup N.eq_dec (flat_map (fun ob : obj * bool => if snd ob then o_listed (fst ob) else []) objs)) ++
+  map (fun ob : obj * bool => orule (fst ob)) objs.
+
 (* an object is out of date w.r.t. f: it is missing, or a prerequisite is missing or newer *)
 Definition stale (f : fs) (o : obj) : bool :=
   is_none (f (o_file o)) ||
